@@ -665,8 +665,10 @@ def rule_decimal_tie(col, facts):
                     if ag[0] == "agg" and len(ag[2]) >= 1:
                         start = strip_casts(ag[2][0])
                 if start is None:
-                    # direct indexing digits[expr]
-                    why = "the parity is not taken from the slice starting at max_digits - 1"
+                    # direct indexing `digits[kept - 1]`, kept being the max_significant_digits value
+                    ie = strip_casts(op_expr(f, ["cp", [idx_local, []]]))
+                    ok = ie[0] == "bin" and ie[1] == "Sub" and strip_casts(ie[3]) == ("k", 1) and _var_mentions(f, ie[2], "max_significant_digits")
+                    why = "element `%s` of the digits" % show(ie)[:60]
                 else:
                     st_ok = start[0] == "bin" and start[1] == "Sub" and strip_casts(start[3]) == ("k", 1) and any(last_seg(c[1]) == "max_significant_digits" for c in expr_calls(start[2]))
                     ok = st_ok and idx == 0
@@ -706,6 +708,10 @@ def rule_cut_exposes_no_zeros(col, facts):
                 first = strip_casts(simplify_proj(e1[2][0]))
         names = {last_seg(c[1]) for c in expr_calls(first)} if first is not None else set()
         ok = first is not None and bool(names & {"rtrim_zeros", "rtrim_char_count", "round_up"})
+        if not ok and e is not None:
+            # the pair is returned as it comes from the rounding helper: `round_up(digits, kept, 10)` as tail expression
+            e1 = strip_casts(simplify_proj(e))
+            ok = e1[0] == "call" and last_seg(e1[1]) in ("round_up",)
         if not ok:
             bad += 1
     col.check(R, "truncate_and_round_decimal:cut-trims-zeros", bad == 0 and n >= 3,
